@@ -52,6 +52,8 @@ pub enum FrameKind {
     Regular,
     ReferenceOnly,
     SkipProgressive,
+    /// LF frame of level 1: an 8x downsampled XYB image a later VarDCT frame takes its LF coefficients from
+    LfFrame,
 }
 
 #[derive(Clone, Copy, Debug, Serialize, Deserialize, PartialEq, Eq)]
@@ -308,7 +310,8 @@ impl Program {
 
     pub fn color_sample_dims(&self, f: &FrameSpec) -> (u32, u32) {
         let (w, h) = self.frame_dims(f);
-        (w.div_ceil(f.upsampling), h.div_ceil(f.upsampling))
+        let (w, h) = (w.div_ceil(f.upsampling), h.div_ceil(f.upsampling));
+        if f.kind == FrameKind::LfFrame { (w.div_ceil(8), h.div_ceil(8)) } else { (w, h) }
     }
 
     /// Channel list of the frame's GlobalModular image before transforms.
@@ -638,7 +641,7 @@ impl Program {
     }
 
     pub fn frame_can_reference(f: &FrameSpec) -> bool {
-        !f.is_last && (f.duration == 0 || f.save_as_reference != 0)
+        !f.is_last && (f.duration == 0 || f.save_as_reference != 0) && f.kind != FrameKind::LfFrame
     }
 
     fn write_image_header(&self, w: &mut BitWriter) {
@@ -740,6 +743,7 @@ impl Program {
         w.w(
             match f.kind {
                 FrameKind::Regular => 0,
+                FrameKind::LfFrame => 1,
                 FrameKind::ReferenceOnly => 2,
                 FrameKind::SkipProgressive => 3,
             },
@@ -759,13 +763,19 @@ impl Program {
         if f.vardct.as_ref().map(|v| v.skip_adaptive_lf_smoothing).unwrap_or(false) {
             flags |= 0x80;
         }
+        let use_lf_frame = f.vardct.as_ref().map(|v| v.use_lf_frame).unwrap_or(false);
+        if use_lf_frame {
+            flags |= 0x20;
+        }
         w.u64(flags);
         if !self.xyb {
             w.bool(false); // do_ycbcr
         }
-        w.u32(U32_1248, f.upsampling, None);
-        for &u in &f.ec_upsampling {
-            w.u32(U32_1248, u, None);
+        if !use_lf_frame {
+            w.u32(U32_1248, f.upsampling, None);
+            for &u in &f.ec_upsampling {
+                w.u32(U32_1248, u, None);
+            }
         }
         if let Some(vd) = &f.vardct {
             if self.xyb {
@@ -791,8 +801,12 @@ impl Program {
                 }
             }
         }
-        w.bool(f.crop.is_some());
-        if let Some((x0, y0, cw, ch)) = f.crop {
+        if f.kind == FrameKind::LfFrame {
+            w.w(0, 2); // lf_level = 1
+        } else {
+            w.bool(f.crop.is_some());
+        }
+        if let Some((x0, y0, cw, ch)) = f.crop.filter(|_| f.kind != FrameKind::LfFrame) {
             if f.kind != FrameKind::ReferenceOnly {
                 w.u32(U32_CROP, pack_signed(x0), None);
                 w.u32(U32_CROP, pack_signed(y0), None);
@@ -815,11 +829,11 @@ impl Program {
             }
             w.bool(f.is_last);
         }
-        if !f.is_last {
+        if !f.is_last && f.kind != FrameKind::LfFrame {
             w.w(f.save_as_reference as u64, 2);
         }
         let duration = if self.animation.is_some() && normal { f.duration } else { 0 };
-        if f.kind == FrameKind::ReferenceOnly || (resets && (!f.is_last && (duration == 0 || f.save_as_reference != 0))) {
+        if f.kind == FrameKind::ReferenceOnly || (f.kind != FrameKind::LfFrame && resets && (!f.is_last && (duration == 0 || f.save_as_reference != 0))) {
             w.bool(f.save_before_ct);
         }
         w.name(&f.name);
@@ -1044,7 +1058,9 @@ impl Program {
             let mut w = BitWriter::new();
             let geom = vd.map(|_| vardct::lf_group_geom(cw, chh, i as u32));
             if let (Some(vd), Some(geom)) = (vd, &geom) {
-                self.vardct_lf_coeff(&mut w, &mut vrng, vd, geom);
+                if !vd.use_lf_frame {
+                    self.vardct_lf_coeff(&mut w, &mut vrng, vd, geom);
+                }
             }
             if !g.is_empty() {
                 self.write_subimage(&mut w, f, g, &mut rng, 100 + i as u64);
